@@ -11,7 +11,7 @@ binary64), every datatype tree of any depth.
 -/
 set_option linter.unusedSectionVars false
 namespace Frappy.Props.C03
-open Frappy.Datatypes Frappy.Spec.C01 Frappy.Spec.C03 Frappy.Lemmas.C03 Frappy.Lemmas.C03Datainfo
+open Frappy.Datatypes Frappy.Spec.C01 Frappy.Spec.C03 Frappy.Lemmas.C03 Frappy.Lemmas.C03Datainfo FloatOps
 
 variable {F : Type} [FloatOps F] [LawfulFloatOps F] [CompatLaws F]
 
@@ -78,6 +78,34 @@ theorem compatible_sound_fails : ¬ compatible_sound_statement Rat := by
   have : validate (.struct [("x", .bool)] [] false : DType Rat) (.dict []) none = .error .wrongType := rfl
   rw [this] at hr
   cases hr
+
+/-- … and on a second ground: a `relative_resolution` above 1 on the second type lets the two limits of the
+first pass although a value between them is refused —
+`FloatRange(-10, 100).compatible(FloatRange(5, 200, relative_resolution=2))` passes, `-1` is refused -/
+theorem compatible_sound_fails_resolution : ¬ compatible_sound_statement Rat := by
+  intro hs
+  have wa : (DType.double (-10) 100 0 0 : DType Rat).WF := by simp only [DType.WF]; decide +kernel
+  have wb : (DType.double 5 200 0 2 : DType Rat).WF := by simp only [DType.WF]; decide +kernel
+  have acc : ∀ x : Rat, isFinite x = true → addZero x = x →
+      le (sub (5 : Rat) (DType.tolerance 2 0 x)) x = true → le x (add (200 : Rat) (DType.tolerance 2 0 x)) = true →
+      ∃ r, validate (DType.double 5 200 0 2 : DType Rat) (.float x) none = .ok r := by
+    intro x fx cx h1 h2
+    obtain ⟨r, hr⟩ := doubleValidate_of_band (bmin := 5) (bmax := 200) (ar := 0) (rr := 2) (v := .float x)
+      (by simp [PVal.toFloat?, cx]) fx h1 h2
+    exact ⟨.float r, by simp only [validate, conv, hr]; rfl⟩
+  have hpass : compatible (DType.double (-10) 100 0 0 : DType Rat) (.double 5 200 0 2) = .ok () := by
+    simp only [compatible]
+    exact limitsValid_of
+      (acc (-10) (by decide +kernel) rfl (by decide +kernel) (by decide +kernel))
+      (acc 100 (by decide +kernel) rfl (by decide +kernel) (by decide +kernel))
+  obtain ⟨r, hr⟩ := hs _ _ wa wb trivial trivial hpass (.float (-1))
+    (by simp only [InSet, InSetG]; decide +kernel)
+  simp only [validate, conv] at hr
+  obtain ⟨x, hx, _⟩ := Frappy.Lemmas.C01.map_ok hr
+  have := (doubleValidate_band (bmin := (5 : Rat)) (bmax := 200) (ar := 0) (rr := 2) (v := .float (-1)) (x := -1)
+    rfl (by decide +kernel) hx).1
+  revert this
+  decide +kernel
 
 /-- "it does pass for the pairings it is written to support when the value sets are nested" -/
 theorem compatible_complete (a b : DType F) (ha : a.WF) (hb : b.WF) (hal : GridAligned a) (hbl : GridAligned b)
